@@ -675,3 +675,20 @@ func (g *Graph) WellFounded(p Pos) bool {
 	_, _, err := g.Deref(p)
 	return err == nil
 }
+
+// GetThrough evaluates the pointer of p token by token, dereferencing every
+// `$ref` holder met on the way (including the final node): it maps a position
+// of an expanded document back to the content position it was expanded from.
+func (g *Graph) GetThrough(p Pos) (Pos, any, error) {
+	cur, n, err := g.Deref(Pos{Doc: p.Doc})
+	if err != nil {
+		return cur, nil, err
+	}
+	for _, tok := range p.Tokens() {
+		cur, n, err = g.Deref(cur.Child(tok))
+		if err != nil {
+			return cur, nil, err
+		}
+	}
+	return cur, n, nil
+}
